@@ -544,6 +544,9 @@ def order(I, op, a, b):
 
 def str_format(I, fmt, arg, node=None):
     if not isinstance(fmt, str):
+        if isinstance(arg, DictV):
+            I.ctx.notes.append("assumed: %-formatting with a mapping succeeds (ground obligations C16/sites)")
+            return I.ctx.fresh("formatted")
         raise OutOfReach("symbolic format string")
     args = list(arg) if isinstance(arg, tuple) else [arg]
     if all(not isinstance(x, (Sym, Obj, DictV, ListV)) for x in args) and not isinstance(arg, (DictV,)):
@@ -552,7 +555,10 @@ def str_format(I, fmt, arg, node=None):
         except (TypeError, ValueError) as e:
             raise PyRaise(type(e).__name__, str(e), site=node)
     if isinstance(arg, DictV):
-        raise OutOfReach("%-format with symbolic mapping")
+        # formatting with a mapping: the result string is not modelled (fresh); that it does not
+        # raise is a ground obligation on the call sites (C16/sites/...), recorded as assumed here.
+        I.ctx.notes.append("assumed: %-formatting with a mapping succeeds (ground obligations C16/sites)")
+        return I.ctx.fresh("formatted")
     # literal format with %s / %d / %05X over symbolic args
     import re as _re
     parts = _re.split(r"(%(?:0?\d*)[sdxXr%])", fmt)
